@@ -478,9 +478,9 @@ ENGINE_KINDS = {
     "seq": "scenario runner on a virtual clock; random API sequences; builds asan (asserts on) and asan-nd",
     "opts": "in-process enumerator (src/opts.c) linked against the interposed library; fork fails with a reserved errno",
     "ident": "helper child reports its own fd table / argv / env / cwd over a control socket found via its executable's directory",
-    "fault": "fault injector in the interposition layer; call sites discovered by tracing; scenario runner as vehicle",
+    "fault": "fault injector in the interposition layer (errno faults, value faults, delayed interruptions, short transfers); call sites discovered by tracing; scenario runner as vehicle; for C05 also lib/eng_ident.py (all redirect configurations) and lib/eng_ledger.py (ledger oracle over the other engines' workloads)",
     "io": "scenario runner on a virtual clock; position-coded streams; recording sinks; ground-truth stream model",
-    "poll": "scenario runner on a virtual clock; ground-truth stream state model (lib/model_io.py)",
+    "poll": "scenario runner on a virtual clock; ground-truth stream state model (lib/model_io.py); C08 adds a small real-clock cross-check (src/rt.c)",
     "life": "scenario runner (src/scen.c) on a virtual clock with scripted helper child; python reference models",
 }
 NOT_APPLICABLE = {}
